@@ -156,7 +156,7 @@ theorem compat_ord_agree (op : Op) (l r : List Atom) (ho : op.isOrd = true)
   obtain ⟨ds, hd1, hd2⟩ := mapFloat_clean l hl
   obtain ⟨es, he1, he2⟩ := mapFloat_clean r hr
   refine ⟨ds.any fun x => es.any fun y => six numLt numEq op x y, ?_, ?_⟩
-  · simp only [compatLoop, ho, if_true, hd1, he1]
+  · simp only [compatLoop, compatLoopWith, ho, if_true, hd1, he1]
     rw [anyPairs_total _ (fun a b => match a, b with | .dbl x, .dbl y => six numLt numEq op x y | _, _ => false)]
     · rw [any_product]
       simp [List.any_map, Function.comp_def]
@@ -178,7 +178,7 @@ theorem compat_ord_agree (op : Op) (l r : List Atom) (ho : op.isOrd = true)
 theorem compat_eq_strs (op : Op) (ss ts : List Str) (ho : op.isOrd = false) :
     compatLoop .v1 op (ss.map .str) (ts.map .str) =
       .ok (ss.any fun s => ts.any fun t => six strLtS strEqS op s t) := by
-  simp only [compatLoop, ho, Bool.false_eq_true, if_false, if_true]
+  simp only [compatLoop, compatLoopWith, ho, Bool.false_eq_true, if_false, if_true]
   rw [anyPairs_total _ (fun a b => match a, b with | .str s, .str t => six strLtS strEqS op s t | _, _ => false)]
   · rw [any_product]
     simp [List.any_map, Function.comp_def]
@@ -206,12 +206,12 @@ theorem generalCmp_v1_nb (op : Op) (L Rr : List Item)
     generalCmp .v1 op L Rr =
       if (L.map (atomize .v1)).isEmpty || (Rr.map (atomize .v1)).isEmpty then .ok false
       else compatLoop .v1 op (L.map (atomize .v1)) (Rr.map (atomize .v1)) := by
-  simp only [generalCmp, Mode.compat, if_true, singleBool?_of_V1 _ hl, singleBool?_of_V1 _ hr]
+  simp only [generalCmp, generalCmpWith, Mode.compat, if_true, singleBool?_of_V1 _ hl, singleBool?_of_V1 _ hr]
   by_cases h1 : (L.map (atomize .v1)).isEmpty = true
   · simp [h1]
   · by_cases h2 : (Rr.map (atomize .v1)).isEmpty = true
     · simp [h1, h2]
-    · simp [h1, h2]
+    · simp [h1, h2, compatLoop]
 
 /-- the atomized operand of a non-boolean XPath 1.0 object -/
 def objAtoms : Obj1 → List Atom
@@ -355,12 +355,12 @@ theorem compat_v1_eq (op : Op) (L Rr : List Item) (a b : Obj1) (v : Bool)
   -- 6, 7. double × number
   · simp [cmp1, he, num1, cmpNum] at hv
     subst hv
-    simp [atomize, compatLoop, ho, product, anyPairs, pyOp_dbl_dbl, liftPy]
+    simp [atomize, compatLoop, compatLoopWith, ho, product, anyPairs, pyOp_dbl_dbl, liftPy]
     cases six numLt numEq op d e <;> rfl
   · have hx := exact_int (hex (.int j) (by simp [atomize]))
     simp [cmp1, he, num1, cmpNum, hx] at hv
     subst hv
-    simp [atomize, compatLoop, ho, product, anyPairs, pyOp_dbl_int, liftPy]
+    simp [atomize, compatLoop, compatLoopWith, ho, product, anyPairs, pyOp_dbl_int, liftPy]
     cases six numLt numEq op d (.fin j) <;> rfl
   -- 8. double × string
   · have := hmix (.dbl d) (by simp [atomize]) (.str t) (by simp [atomize])
@@ -375,13 +375,13 @@ theorem compat_v1_eq (op : Op) (L Rr : List Item) (a b : Obj1) (v : Bool)
   · have hx := exact_int (hex (.int i) (by simp [atomize]))
     simp [cmp1, he, num1, cmpNum, hx] at hv
     subst hv
-    simp [atomize, compatLoop, ho, product, anyPairs, pyOp_int_dbl, liftPy]
+    simp [atomize, compatLoop, compatLoopWith, ho, product, anyPairs, pyOp_int_dbl, liftPy]
     cases six numLt numEq op (.fin i) e <;> rfl
   · have hx := exact_int (hex (.int i) (by simp [atomize]))
     have hy := exact_int (hex (.int j) (by simp [atomize]))
     simp [cmp1, he, num1, cmpNum, hx, hy] at hv
     subst hv
-    simp [atomize, compatLoop, ho, product, anyPairs, pyOp_int_int, liftPy]
+    simp [atomize, compatLoop, compatLoopWith, ho, product, anyPairs, pyOp_int_int, liftPy]
     cases six numLt numEq op (.fin i) (.fin j) <;> rfl
   -- 12. integer × string
   · have := hmix (.int i) (by simp [atomize]) (.str t) (by simp [atomize])
@@ -427,7 +427,7 @@ theorem compat_v1_bool (op : Op) (L Rr : List Item) (a b : Obj1) (v : Bool)
   all_goals
     simp [cmp1, he, bool1] at hv
     subst hv
-    simp [generalCmp, Mode.compat, atomize, singleBool?, ebvList, ebvAtom, pyOp_bool_bool_eqne _ _ _ _ ho]
+    simp [generalCmp, generalCmpWith, Mode.compat, atomize, singleBool?, ebvList, ebvAtom, pyOp_bool_bool_eqne _ _ _ _ ho]
   · have hx := exact_int (hex (.int i) (by simp [atomize]))
     simp [hx, D.isNaN, D.isZero, D.rank, D.val]
   · have hx := exact_int (hex (.int j) (by simp [atomize]))
